@@ -110,6 +110,31 @@ def c17_cases(tier):
         for n in range(0, (4 if q else 6)):
             for cols in itertools.permutations(EDGE_VOCAB, n):
                 yield ("edge", cols, (), ndim)
+    # wide headers: a column for every node feature (so that every slot of the map gets filled),
+    # each feature spelled as its key / its display or value names / those names in upper case,
+    # with the required keys and seg_id, 0-2 further columns, in three column orders
+    from funtracks.import_export._utils import get_default_key_to_feature_mapping
+    for ndim in (3, 4):
+        feats = get_default_key_to_feature_mapping(ndim, display_name=False)
+        keys = [k for k in feats if k != "iou"]
+        spell = {}
+        for k in keys:
+            f = feats[k]
+            names = list(f.get("value_names") or [f.get("display_name")])
+            spell[k] = [[k], names, [x.upper().replace(" ", "_") for x in names]]
+        for choice in itertools.product((0, 1, 2), repeat=len(keys)):
+            body = [c for k, i in zip(keys, choice) for c in spell[k][i]]
+            for extra in ((), ("note",), ("intensity_mean", "comment")):
+                for required in (("time",), ("time", "id", "parent_id")):
+                    if q and required != ("time",) and extra != ("note",):
+                        continue
+                    cols = list(required) + ["seg_id"] + body + list(extra)
+                    if len(set(cols)) != len(cols):
+                        continue
+                    yield ("node", tuple(cols), required, ndim)
+                    yield ("node", tuple(reversed(cols)), required, ndim)
+                    if not q:
+                        yield ("node", tuple(cols[3:] + cols[:3]), required, ndim)
 
 
 # ===========================================================================
@@ -119,6 +144,9 @@ def c19_unique_case(case):
     from funtracks.utils import ensure_unique_labels
     kind, shape, flat, multiseg = case[:4]
     arr = np.array(flat, dtype=np.int64).reshape(shape)
+    if len(case) > 4 and case[4] in ("uint8", "uint16"):
+        # narrow label images whose labels, once offset frame by frame, pass the dtype's maximum
+        arr = arr.astype(case[4])
     if len(case) > 4 and case[4] == "noncontig":
         # the same values in a non-C-contiguous array (first two axes stored swapped)
         arr = np.ascontiguousarray(np.swapaxes(arr, 0, 1)).swapaxes(0, 1)
@@ -181,6 +209,12 @@ def c19_unique_cases(tier):
     for flat in itertools.product((0, 1, 2), repeat=8):
         yield ("unique", (2, 1, 2, 1, 2), flat, True)
         yield ("unique", (1, 2, 2, 1, 2), flat, True)
+    for flat in itertools.product((0, 44, 100, 200), repeat=6):
+        yield ("unique", (3, 1, 2), flat, False, "uint8")
+    for flat in itertools.product((0, 30000, 65535), repeat=6):
+        yield ("unique", (3, 1, 2), flat, False, "uint16")
+    for flat in itertools.product((0, 100, 200), repeat=4):
+        yield ("unique", (2, 2, 1, 1), flat, True, "uint8")
     if not q:
         shape = (3, 1, 3)
         for flat in itertools.product((0, 1, 3), repeat=9):
@@ -202,8 +236,8 @@ def c19_relabel_case(case):
     kind, seed_j, mode = case
     seed = worlds.seed_from_json(seed_j)
     g = _forest_graph(seed)
-    T = 3
-    Wd = 8
+    T = max([3] + [t + 1 for t, _r in seed["nodes"].values()])
+    Wd = max(8, len(seed["nodes"]) + 1)
     seg = np.zeros((T, 1, Wd), dtype=np.int64)
     # each node gets pixel column = node index, label = seg_id (reused across frames when mode has 'reuse')
     col = {}
@@ -251,6 +285,20 @@ def c19_relabel_case(case):
 def c19_relabel_cases(tier):
     q = tier == "quick"
     for seed in worlds.forests(4 if q else 5, 3, 1):
+        sj = worlds.seed_to_json(seed)
+        for mode in ("plain", "reuse", "extra", "reuse+extra"):
+            yield ("relabel", sj, mode)
+    # several divisions in one graph: all 5-node forests with two divisions (quick; part of the
+    # full enumeration in the thorough tier), the nested and the side-by-side hand seeds
+    many = [worlds.SEEDS["nested"], worlds.SEEDS["twodiv"], worlds.SEEDS["fix6"]]
+    if q:
+        for seed in worlds.forests(5, 3, 5):
+            outdeg = {}
+            for u, _v in seed["edges"]:
+                outdeg[u] = outdeg.get(u, 0) + 1
+            if sum(1 for d in outdeg.values() if d == 2) >= 2:
+                many.append(seed)
+    for seed in many:
         sj = worlds.seed_to_json(seed)
         for mode in ("plain", "reuse", "extra", "reuse+extra"):
             yield ("relabel", sj, mode)
@@ -325,6 +373,13 @@ def c18_points_cases(tier):
                 yield ("points", pts, 1.0, True, 3)
                 yield ("points", pts, 1.0, False, 4)
                 yield ("points", pts, 1.0, True, 4)
+    # dense frames: 9 to 12 points on a 4 x 3 lattice (ids up to 11, three points per frame),
+    # listed in time order and in reversed order
+    lattice = [(t, x) for t in range(4) for x in range(3)]
+    for n in range(9, 13):
+        for pts in itertools.combinations(lattice, n):
+            yield ("points", pts, 1.0, False, 3)
+            yield ("points", tuple(reversed(pts)), 1.5, False, 3)
 
 
 def c18_seg_case(case):
@@ -409,6 +464,14 @@ def c18_seg_cases(tier):
                 yield ("seg", flat, 2.0, True)
             if n <= 3:
                 yield ("seg", flat, 1.0, False, "u8")
+    # dense frames: 13 to 15 single-pixel detections on the 5 x 3 lattice (labels up to 15)
+    cells = [(t, x) for t in range(T) for x in range(Wd)]
+    for n in range(13, 16):
+        for combo in itertools.combinations(cells, n):
+            seg = np.zeros((T, 1, Wd), dtype=np.int64)
+            for lab, (t, x) in enumerate(combo, start=1):
+                seg[t, 0, x] = lab
+            yield ("seg", tuple(int(v) for v in seg.ravel()), 1.0, False)
 
 
 # ===========================================================================
@@ -506,6 +569,15 @@ def c13_cases(tier):
         for perm in itertools.permutations((1, 256, 257, 300), len(present)):
             if len(present) <= 3:
                 yield ("direct", (2, 1, 3), flat, tuple(zip(present, perm)), "u8")
+    # labels and ids of six digits that differ by one (equal under a relative tolerance of 1e-5)
+    for flat in itertools.product((0, 100001, 100002), repeat=4):
+        seg = np.array(flat).reshape((2, 1, 2))
+        present = [(t, int(lab)) for t in range(2) for lab in np.unique(seg[t]) if lab]
+        for r in range(1, len(present) + 1):
+            for sub in itertools.combinations(present, r):
+                for perm in itertools.permutations((100000, 100001, 100002), r):
+                    yield ("direct", (2, 1, 2), flat, tuple(zip(sub, perm)))
+                    yield ("df", (2, 1, 2), flat, tuple(zip(sub, perm)))
     shape = (2, 1, 3)
     labels = (0, 1, 2, 3) if not q else (0, 1, 2)
     ids = (0, 1, 2, 3, 4) if not q else (0, 1, 2, 3)
@@ -636,7 +708,139 @@ def c07_big_cases(tier):
                     yield (h, w, leave, value, scale)
 
 
+# ===========================================================================
+# C08 / C10 on masks of 2 500 and 10**5 pixels: one-pixel edits (relative change < 1e-5)
+
+def c08_big_case(case):
+    """case = (prop, h, w, edit, toggle, scale): the big node of c07_big_case gets a one-pixel
+    edit (erase a corner pixel / erase the pixel next to the centroid / grow by one pixel);
+    toggle: a feature key that is switched off before the edit and on again after it"""
+    import networkx as nx
+    from funtracks.data_model import SolutionTracks
+    from . import oracles, worlds as W
+    prop, h, w, edit, toggle, scale = case
+    seg = np.zeros((2, h, w), dtype="int32")
+    seg[0, :, : w - 3] = 1
+    seg[0, :, w - 1] = 2
+    seg[1, 0:2, 0:2] = 3
+    g = nx.DiGraph()
+    g.add_node(1, time=0)
+    g.add_node(2, time=0)
+    g.add_node(3, time=1)
+    g.add_edge(1, 3)
+    tracks = SolutionTracks(g, segmentation=seg, ndim=3, scale=list(scale) if scale else None)
+    cls = f"{'big' if h * w > 50000 else ('mid' if h * w > 1000 else 'toy')}:{edit}:{toggle or 'plain'}"
+    if edit == "erase-corner":
+        pix, value = [[0], [0]], 0
+    elif edit == "erase-centre":
+        pix, value = [[h // 2], [(w - 3) // 2]], 0
+    else:
+        pix, value = [[h // 2], [w - 3]], 1
+    res = []
+    if toggle:
+        tracks.disable_features([toggle])
+    ev = ("paint", 0, pix, value, int(tracks.get_track_id(1)), False, edit)
+    out = events.apply_event(tracks, W.world("seg-2d-core"), ev)
+    if out.status != "ok":
+        return [vio(prop, "stroke-refused", f"{out.status} {out.exc!r}", case, "c08big", cls)]
+    if toggle:
+        tracks.enable_features([toggle])
+    for phase in ("apply", "undo", "redo"):
+        if phase == "undo" and tracks.undo() is not True:
+            res.append(vio(prop, "undo-false", "undo() returned False after one edit", case, "c08big", cls))
+            break
+        if phase == "redo" and tracks.redo() is not True:
+            res.append(vio(prop, "redo-false", "redo() returned False after one undo", case, "c08big", cls))
+            break
+        bad = oracles.inv_c08(tracks, differential=False)
+        for clause, detail in bad[:2]:
+            res.append(vio(prop, clause, f"after {phase}: {detail}", case, "c08big", cls + ":" + phase))
+        if bad:
+            break
+    return res
+
+
+def c08_big_cases(tier, prop="C08"):
+    for h, w in ((4, 6), (50, 53), (320, 330)):
+        for edit in ("erase-corner", "erase-centre", "grow"):
+            for toggle in ((None,) if prop == "C08" else ("area", "pos")):
+                for scale in (None, (1.0, 0.5, 0.5)):
+                    yield (prop, h, w, edit, toggle, scale)
+
+
+# ===========================================================================
+# C02 / C20 on histories of 3 and 300 entries
+
+def long_history_case(case):
+    """case = (n, scenario): n accepted edits on a 3-node chain, then a fixed script of undo /
+    redo / edit calls, every call judged against the timeline model (return value, state,
+    number of refresh emissions)"""
+    from . import canon, histories, worlds as W
+    n, scenario = case
+    w = W.world("noseg-2d")
+    tracks = W.build(w, "chain")
+    tl = histories.Timeline(canon.observe(tracks))
+    cls = f"{'long' if n > 100 else 'toy'}:{scenario}"
+    res = []
+
+    def edit(i):
+        out = events.apply_event(tracks, w, ("set_attr", 1 + (i % 3), "score", float(i) + 0.5))
+        if out.status != "ok":
+            res.append(vio("C02", "edit-refused", f"edit {i}: {out.status} {out.exc!r}", case, "longhist", cls))
+            return False
+        tl.edit(canon.observe(tracks))
+        if len(out.refresh) != 1:
+            res.append(vio("C20", "refresh-count", f"edit {i}: {len(out.refresh)} emission(s)", case, "longhist", cls))
+        return True
+
+    def step(kind, k):
+        before = canon.observe(tracks)
+        out = events.apply_event(tracks, w, (kind,))
+        exp = tl.can_undo() if kind == "undo" else tl.can_redo()
+        if out.status != "ok":
+            res.append(vio("C02", "undo-redo-raises", f"call {k} ({kind}): {out.exc!r}", case, "longhist", cls))
+            return False
+        if exp:
+            tl.cursor += -1 if kind == "undo" else 1
+        if out.action is not exp:
+            res.append(vio("C02", "wrong-return", f"call {k}: {kind}() returned {out.action!r}, timeline (len {len(tl.states)}, cursor {tl.cursor}) says {exp}", case, "longhist", cls))
+        if len(out.refresh) != (1 if exp else 0):
+            res.append(vio("C20", "refresh-on-noop" if not exp else "refresh-count-" + kind,
+                           f"call {k}: {len(out.refresh)} emission(s) from {kind}() with {'something' if exp else 'nothing'} to step to", case, "longhist", cls))
+        obs = canon.observe(tracks)
+        if obs != tl.current:
+            res.append(vio("C02", "state-differs-from-timeline", f"call {k} ({kind}): " + "; ".join(canon.diff(tl.current, obs)), case, "longhist", cls))
+        if not exp and obs != before:
+            res.append(vio("C02", "false-step-changed-state", f"call {k} ({kind})", case, "longhist", cls))
+        return not res
+
+    for i in range(n):
+        if not edit(i):
+            return res
+    if scenario == "unwind":
+        script = ["undo"] * (n + 2)
+    elif scenario == "redo-at-top":
+        script = ["redo", "redo", "undo", "redo", "redo"]
+    elif scenario == "unwind-rewind":
+        script = ["undo"] * n + ["redo"] * (n + 2)
+    else:  # unwind, new edit, unwind everything that was ever visited
+        script = ["undo"] * n + ["edit"] + ["undo"] * (2 * n + 3)
+    for k, kind in enumerate(script):
+        ok = edit(n + k) if kind == "edit" else step(kind, k)
+        if not ok:
+            break
+    return res
+
+
+def long_history_cases(tier):
+    for n in (3, 300):
+        for scenario in ("unwind", "redo-at-top", "unwind-rewind", "unwind-edit-unwind"):
+            yield (n, scenario)
+
+
 CASE_FNS = {
+    "longhist": long_history_case,
+    "c08big": c08_big_case,
     "c07big": c07_big_case,
     "c17": c17_case, "c19u": c19_unique_case, "c19r": c19_relabel_case,
     "c18p": c18_points_case, "c18s": c18_seg_case, "c13": c13_case, "ctor": ctor_case,
